@@ -1171,10 +1171,13 @@ def m_vec(ctx):
         key = ex.deref_val(st, ctx.args[1]); ks = [ex.deref_val(st, k) for k in items]
         if not z3.is_bv(key) or not all(z3.is_bv(k) for k in ks) or len(ks) > 6:
             return None
+        # on a slice that is not sorted the answer of binary_search is unspecified: a present key may be missed
+        srt = z3.And(*[z3.ULE(ks[i], ks[i + 1]) for i in range(len(ks) - 1)]) if len(ks) > 1 else z3.BoolVal(True)
+        missed = z3.Bool(f'binary_search_misses_{nid()}')
         alts = []; earlier = z3.BoolVal(False)
         for i, k in enumerate(ks):
-            alts.append((z3.And(k == key, z3.Not(earlier)), ok(z3.BitVecVal(i, 64)))); earlier = z3.Or(earlier, k == key)
-        alts.append((z3.Not(earlier), (lambda s2: err(z3.BitVec(f'insertion_point_{nid()}', 64)))))
+            alts.append((z3.And(k == key, z3.Not(earlier), z3.Or(srt, z3.Not(missed))), ok(z3.BitVecVal(i, 64)))); earlier = z3.Or(earlier, k == key)
+        alts.append((z3.Or(z3.Not(earlier), z3.And(z3.Not(srt), missed)), (lambda s2: err(z3.BitVec(f'insertion_point_{nid()}', 64)))))
         return alts
     return None
 
@@ -1285,6 +1288,8 @@ def m_iter_adapt(ctx):
         it.attrs['rev'] = not it.attrs.get('rev', False); return [(None, it)]
     if op in ('cloned', 'copied') and it.kind == 'iter':
         it.attrs['mode'] = 'val'; return [(None, it)]
+    if op in ('cloned', 'copied') and it.kind == 'mapiter':
+        it.attrs['copy_out'] = True; return [(None, it)]      # the yielded references are dereferenced when the adaptor chain is consumed
     if op == 'by_ref':
         return [(None, ctx.args[0])]
     if op == 'enumerate' and it.kind == 'iter':
@@ -1344,7 +1349,7 @@ def m_iter_consume(ctx):
         if inner.kind == 'mapiter':
             raise MirError('nested lazy iterator adaptors')
         xs = drain_iter(ex, st, inner)
-        c = Cont('mapcollect', pending=xs, done=[], f=it.attrs['f'], op=op, callee=ctx.callee, args=ctx.args[1:], dest=ctx.dest, nxt=ctx.nxt, ret_ty=ctx.ret_ty, filter=bool(it.attrs.get('filter')), flat=bool(it.attrs.get('flat')), pred=bool(it.attrs.get('pred')))
+        c = Cont('mapcollect', pending=xs, done=[], f=it.attrs['f'], op=op, callee=ctx.callee, args=ctx.args[1:], dest=ctx.dest, nxt=ctx.nxt, ret_ty=ctx.ret_ty, filter=bool(it.attrs.get('filter')), flat=bool(it.attrs.get('flat')), pred=bool(it.attrs.get('pred')), copy_out=bool(it.attrs.get('copy_out')))
         return _mapcollect_step(ex, st, c, ctx.work)
     xs = drain_iter(ex, st, it)
     return consume_list(ctx, op, xs, ctx.args[1:], ctx.ret_ty, ctx.dest, ctx.nxt)
@@ -1369,6 +1374,8 @@ def _mapcollect_step(ex, st, c, work):
             return PUSHED
         ex.call_closure(st, d['f'], [x], d['dest'], d['nxt'], c)
         return PUSHED
+    if d.get('copy_out'):
+        d['done'] = [ex.copy_val(ex.deref_val(st, x)) if isinstance(x, Ref) else x for x in d['done']]
     ctx2 = type('C', (), {})()
     ctx2.ex, ctx2.st, ctx2.callee, ctx2.args, ctx2.dest, ctx2.nxt, ctx2.work, ctx2.ret_ty = ex, st, d['callee'], [None] + list(d['args']), d['dest'], d['nxt'], work, d['ret_ty']
     return consume_list(ctx2, d['op'], d['done'], d['args'], d['ret_ty'], d['dest'], d['nxt'])
